@@ -458,13 +458,19 @@ func (e *Eng) ValsUnder(r *Reached, v ssa.Value) []ssa.Value {
 			return
 		case *ssa.UnOp:
 			if a, ok := v.X.(*ssa.Alloc); ok && v.Op.String() == "*" {
-				vals, esc := e.boxValues(a)
-				if !esc && len(vals) > 0 {
-					for _, s := range vals {
+				sts, esc := e.boxStores(a)
+				if !esc && len(sts) > 0 {
+					n := 0
+					for _, st := range sts {
 						// only stores that were reached count
-						rec(s)
+						if r == nil || r.Instr[st] {
+							n++
+							rec(st.Val)
+						}
 					}
-					return
+					if n > 0 {
+						return
+					}
 				}
 			}
 		case *ssa.MakeInterface:
